@@ -90,6 +90,7 @@ def chunks(tier):
     t = _tier(tier)
     out = [("R", a, b) for a in range(9) for b in range(9)]
     out.append(("S1",))
+    out += [("H", i) for i in range(len(POOL3))]
     n = len(t["pool"])
     out += [("S", i, j) for i in range(n) for j in range(i + 1, n)]
     return out
@@ -454,10 +455,64 @@ def _run_combo(res, combo, t):
         res.sample(dict(layer="S", reactions=[_rt_str(pool[i], KPRIME[i]) for i in combo], permutations=len(list(itertools.permutations(combo)))), limit=2)
 
 
+# ------------------------------------------------------------------------------------------------- histories
+HIST_K = [7, Fr(11, 3), "kx", 13]  # successive values assigned to rxn.param ("kx": a named constant looked up in the variables)
+
+
+def _check_history(res, i, seq):
+    """assign the parameters of `seq` to one live Reaction object in turn (evaluating before, between and after):
+    every evaluation must use the CURRENT rate constant — of the reaction alone and inside a two-reaction system"""
+    from chempy import Reaction, ReactionSystem
+
+    S = "ABC"
+    rt = POOL3[i]
+    other = POOL3[(i + 1) % len(POOL3)]
+    reac, prod, ir, ip = M.rt_dicts(rt)
+    o = M.rt_dicts(other)
+    conc = {s: ATOM[s] for s in S}
+    var = dict(conc, kx=Fr(5, 7))
+    res.states += 1
+    res.transitions += len(seq)
+    res.nontrivial += 1
+    case = dict(layer="H", i=i, seq=list(seq))
+    try:
+        rxn = Reaction(reac, prod, 3, inact_reac=ir, inact_prod=ip)
+        rs = ReactionSystem([rxn, Reaction(o[0], o[1], 17, inact_reac=o[2], inact_prod=o[3])], S)
+    except Exception as e:
+        res.outcomes["history-construct-raises"] += 1
+        return
+    kcur = 3
+    for step, ki in enumerate((None,) + tuple(seq)):
+        if ki is not None:
+            rxn.param = HIST_K[ki]
+            kcur = HIST_K[ki]
+        kval_ = var["kx"] if kcur == "kx" else kcur
+        res.evaluations += 2
+        exp1 = M.reaction_contrib(rt, kval_, conc, M.rt_keys(rt))
+        exp2 = M.system_rates([rt, other], [kval_, 17], conc, list(S))
+        try:
+            got1 = rxn.rate(var)
+            got2 = rs.rates(var)
+        except Exception as e:
+            got1 = got2 = "EXC %s" % type(e).__name__
+        ok = isinstance(got1, dict) and all(got1.get(s, 0) == v for s, v in exp1.items()) and isinstance(got2, dict) and all(got2.get(s, 0) == v for s, v in exp2.items())
+        res.outcomes["history-ok" if ok else "history-STALE"] += 1
+        if not ok:
+            res.violation("C03|history|param-reassigned|rate-uses-stale-constant", "%s with param assigned %r (step %d of %r): rate %r / system rates %r, model %r / %r" % (
+                _rt_str(rt, "k"), kcur, step, [HIST_K[j] for j in seq], _show(got1) if isinstance(got1, dict) else got1, _show(got2) if isinstance(got2, dict) else got2, _show(exp1), _show(exp2)), case, str(got1), str(exp1))
+            return
+
+
 def run_chunk(chunk, tier):
     res = Result()
     t = _tier(tier)
-    if chunk[0] == "R":
+    if chunk[0] == "H":
+        for n in (1, 2, 3):
+            for seq in itertools.product(range(len(HIST_K)), repeat=n):
+                if all(a != b for a, b in zip(seq, seq[1:])):
+                    _check_history(res, chunk[1], seq)
+        res.sample(dict(layer="H", reaction=_rt_str(POOL3[chunk[1]], "k"), params=[str(x) for x in HIST_K]))
+    elif chunk[0] == "R":
         _run_R(res, chunk, tier)
     elif chunk[0] == "S1":
         for i in range(len(t["pool"])):
@@ -477,7 +532,9 @@ def run_chunk(chunk, tier):
 # ------------------------------------------------------------------------------------------------- replay
 def replay(case):
     res = Result()
-    if case["layer"] == "R":
+    if case["layer"] == "H":
+        _check_history(res, case["i"], tuple(case["seq"]))
+    elif case["layer"] == "R":
         _check_reaction(res, M.rt_from_json(case["rt"]), case["S"], modes=[(case["kmode"], case["vkind"])])
     else:
         rts = [M.rt_from_json(x) for x in case["rts"]]
